@@ -3,3 +3,5 @@ import MsqProofs.Lemmas.LexInv
 import MsqProofs.Lemmas.LexWK
 import MsqProofs.Lemmas.LexLossless
 import MsqProofs.Props.C04
+import MsqProofs.Props.C02
+import MsqProofs.Props.C14
